@@ -1,4 +1,545 @@
 package gvc
 
-func CmdCheck(args []string) int    { return 2 }
-func CmdSelftest(args []string) int { return 2 }
+import (
+	"encoding/json"
+	"flag"
+	"fmt"
+	"os"
+	"os/exec"
+	"path/filepath"
+	"regexp"
+	"sort"
+	"strconv"
+	"strings"
+	"time"
+)
+
+// ---------------------------------------------------------------------
+// known findings
+
+type Finding struct {
+	Property   string `json:"property"`
+	ID         string `json:"id"`
+	Obligation string `json:"obligation"` // regexp over obligation names (deductive) or finding key (bounded)
+	What       string `json:"what"`
+	Witness    string `json:"witness"`
+	Status     string `json:"status"` // open | fixed
+	Commit     string `json:"commit,omitempty"`
+}
+
+type FindingsFile struct {
+	Findings []Finding `json:"findings"`
+}
+
+func loadFindings(path string) []Finding {
+	b, err := os.ReadFile(path)
+	if err != nil {
+		return nil
+	}
+	var ff FindingsFile
+	if err := json.Unmarshal(b, &ff); err != nil {
+		fmt.Println("known_findings.json:", err)
+		os.Exit(2)
+	}
+	return ff.Findings
+}
+
+func matchFinding(fs []Finding, prop, name string) *Finding {
+	for i := range fs {
+		f := &fs[i]
+		if f.Status != "open" || f.Property != prop || f.Obligation == "" {
+			continue
+		}
+		if ok, _ := regexp.MatchString("^(?:"+f.Obligation+")$", name); ok {
+			return f
+		}
+	}
+	return nil
+}
+
+// ---------------------------------------------------------------------
+// property registry (what the bounded stand-in covers, level, notes)
+
+type PropInfo struct {
+	ID      string   `json:"id"`
+	Level   string   `json:"level"`
+	Bounded bool     `json:"bounded"`
+	Notes   []string `json:"notes"`
+}
+
+func hasProp(props []string, p string) bool {
+	for _, x := range props {
+		if x == p {
+			return true
+		}
+	}
+	return false
+}
+
+func blockHasProp(b *Block, p string) bool {
+	if hasProp(b.Props, p) {
+		return true
+	}
+	for _, oc := range b.Opcases {
+		if hasProp(oc.Props, p) {
+			return true
+		}
+	}
+	for _, cl := range [][]Clause{b.Requires, b.Ensures} {
+		for _, c := range cl {
+			if hasProp(c.Props, p) {
+				return true
+			}
+		}
+	}
+	return false
+}
+
+// clauseKey: coarse, edit-stable key of an obligation for the ledger.
+var siteRe = regexp.MustCompile(`#\d+@[^/.]*`)
+
+func clauseKey(name string) string {
+	// drop site ordinals, keep block / kind . label
+	k := siteRe.ReplaceAllString(name, "")
+	if i := strings.Index(k, "/canary"); i >= 0 {
+		return k[:i] + "/canary"
+	}
+	return k
+}
+
+type Ledger struct {
+	Keys map[string][]string `json:"keys"` // property -> clause keys discharged on the pinned tree
+}
+
+func loadLedger(path string) *Ledger {
+	l := &Ledger{Keys: map[string][]string{}}
+	if b, err := os.ReadFile(path); err == nil {
+		json.Unmarshal(b, l)
+	}
+	return l
+}
+
+// ---------------------------------------------------------------------
+
+type Evidence struct {
+	PropertyID  string                 `json:"property_id"`
+	Tier        string                 `json:"tier"`
+	Seed        int                    `json:"seed"`
+	Level       string                 `json:"level"`
+	Coverage    map[string]interface{} `json:"coverage"`
+	Assumptions []string               `json:"assumptions"`
+	WallS       float64                `json:"wall_s"`
+	Violations  int                    `json:"violations"`
+}
+
+var VerifDir = "/verif"
+
+func CmdCheck(args []string) int {
+	fs := flag.NewFlagSet("check", flag.ExitOnError)
+	prop := fs.String("property", "", "property id")
+	tier := fs.String("tier", "quick", "quick|thorough")
+	repo := fs.String("repo", "/repo", "")
+	updateLedger := fs.Bool("update-ledger", false, "record the discharged clause keys as the baseline")
+	noBounded := fs.Bool("no-bounded", false, "")
+	fs.Parse(args)
+	if *prop == "" {
+		fmt.Println("check: -property required")
+		return 2
+	}
+	if t := os.Getenv("VERIF_TIER"); t == "quick" || t == "thorough" {
+		*tier = t
+	}
+	seed := 1
+	if s := os.Getenv("VERIF_SEED"); s != "" {
+		if n, err := strconv.Atoi(s); err == nil {
+			seed = n
+		}
+	}
+	t0 := time.Now()
+	timeout := 10000
+	if *tier == "thorough" {
+		timeout = 60000
+		FullCanaries = true
+	}
+	evPath := filepath.Join(VerifDir, "evidence", *prop+".json")
+	os.MkdirAll(filepath.Dir(evPath), 0o755)
+	os.Remove(evPath)
+	replayDir := filepath.Join(VerifDir, "replay")
+	os.MkdirAll(replayDir, 0o755)
+
+	findings := loadFindings(filepath.Join(VerifDir, "known_findings.json"))
+	ledger := loadLedger(filepath.Join(VerifDir, "baseline", "ledger.json"))
+
+	violations := 0
+	var lines []string
+	say := func(s string) { fmt.Println(s); lines = append(lines, s) }
+
+	P, err := Load(*repo)
+	if err != nil {
+		// the tree does not load (does not compile with the tag): undecided -> report
+		rp := filepath.Join(replayDir, *prop+"_load.json")
+		writeJSON(rp, map[string]interface{}{"property": *prop, "error": err.Error()})
+		say(fmt.Sprintf("VIOLATION property=%s replay=%s no-failing-input-found (repository does not load: %v)", *prop, rp, err))
+		writeEvidence(evPath, &Evidence{PropertyID: *prop, Tier: *tier, Seed: seed, Level: "other", Violations: 1, WallS: time.Since(t0).Seconds(),
+			Coverage: map[string]interface{}{"explanation": "repository failed to load: " + err.Error()}})
+		return 1
+	}
+	if err := P.ParseContracts(filepath.Join(VerifDir, "contracts"), filepath.Join(VerifDir, "spec")); err != nil {
+		fmt.Println("contract parse error:", err)
+		return 2
+	}
+	if err := P.GuardFunDir(); err != nil {
+		fmt.Println(err)
+		return 2
+	}
+
+	var results []*Result
+	var funcs []string
+	var stale []string
+	var trusted []string
+	for _, b := range P.BlockL {
+		if b.Kind != "func" && b.Kind != "closure" {
+			continue
+		}
+		if !blockHasProp(b, *prop) {
+			continue
+		}
+		if b.Trusted {
+			trusted = append(trusted, b.Name)
+			continue
+		}
+		r := Verify(P, b, Options{Canaries: true})
+		if r.Skipped != "" {
+			stale = append(stale, b.Name)
+			say("STALE-CONTRACT property=" + *prop + " " + r.Skipped)
+			continue
+		}
+		// keep only obligations of this property
+		var keep []*Oblig
+		for _, o := range r.Obligs {
+			if hasProp(o.Props, *prop) {
+				keep = append(keep, o)
+			}
+		}
+		r.Obligs = keep
+		results = append(results, r)
+		funcs = append(funcs, b.Name)
+	}
+	tGen := time.Since(t0).Seconds()
+	Discharge(results, timeout, 16)
+	fmt.Printf("timing: load+generate %.1fs, discharge %.1fs\n", tGen, time.Since(t0).Seconds()-tGen)
+
+	// ---- evaluate
+	nObl, nOK := 0, 0
+	bySolver := map[string]int{}
+	var solverMs int64
+	var samples []interface{}
+	notes := map[string]bool{}
+	generated := map[string]bool{}
+	canFail, covers := 0, 0
+	type failure struct {
+		r *Result
+		o *Oblig
+	}
+	var fails []failure
+	var vacuity []string
+	for _, r := range results {
+		if r.Err != nil {
+			rp := filepath.Join(replayDir, sanitize(*prop+"_"+r.Block.Name+"_error")+".json")
+			writeJSON(rp, map[string]interface{}{"property": *prop, "function": r.Block.Name, "error": r.Err.Error(),
+				"meaning": "the contract of this function can no longer be checked against the code (engine/contract error); its obligations are not discharged"})
+			if f := matchFinding(findings, *prop, r.Block.Name+"/error"); f != nil {
+				say(fmt.Sprintf("KNOWN-FINDING: property=%s %s (%s)", *prop, f.What, f.ID))
+			} else {
+				say(fmt.Sprintf("VIOLATION property=%s replay=%s no-failing-input-found (%s: %v)", *prop, rp, r.Block.Name, firstLine(r.Err.Error())))
+				violations++
+			}
+		}
+		for _, n := range r.Notes {
+			notes[r.Block.Name+": "+n] = true
+		}
+		for _, o := range r.Obligs {
+			if o.Canary {
+				if o.Kind == "cover" {
+					covers++
+				}
+				if o.OK() {
+					canFail++
+				} else {
+					vacuity = append(vacuity, o.Name)
+				}
+				continue
+			}
+			nObl++
+			generated[clauseKey(o.Name)] = true
+			solverMs += o.Ans.Ms
+			if o.OK() {
+				nOK++
+				bySolver[strings.TrimSuffix(o.Ans.Solver, "(cached)")]++
+				if len(samples) < 6 && !o.Trivial && (len(samples) == 0 || o.Kind == "ensures") {
+					samples = append(samples, map[string]interface{}{"obligation": o.Name, "answer": o.Ans.Result, "solver": o.Ans.Solver, "ms": o.Ans.Ms,
+						"smt_bytes": len(BuildQuery(r.Decls, o)), "goal": trunc(o.Goal, 300)})
+				}
+			} else {
+				fails = append(fails, failure{r, o})
+			}
+		}
+	}
+	// failing obligations -> known finding or violation
+	seenFinding := map[string]bool{}
+	for _, f := range fails {
+		o := f.o
+		if kf := matchFinding(findings, *prop, o.Name); kf != nil {
+			if !seenFinding[kf.ID] {
+				seenFinding[kf.ID] = true
+				say(fmt.Sprintf("KNOWN-FINDING: property=%s %s: %s [obligation %s, witness %s]", *prop, kf.ID, kf.What, o.Name, kf.Witness))
+			}
+			continue
+		}
+		rp := filepath.Join(replayDir, sanitize(*prop+"_"+o.Name)+".json")
+		rec := map[string]interface{}{"property": *prop, "obligation": o.Name, "kind": o.Kind, "path": o.Path, "goal": o.Goal,
+			"solver_answer": o.Ans.Result, "solver": o.Ans.Solver, "solver_output": trunc(o.Ans.Raw, 4000), "model": trunc(o.Ans.Model, 20000),
+			"query_file": rp + ".smt2"}
+		os.WriteFile(rp+".smt2", []byte(BuildQuery(f.r.Decls, o)+"(check-sat)\n(get-model)\n"), 0o644)
+		replayed := Replay(P, f.r, o, rec, *repo)
+		writeJSON(rp, rec)
+		suffix := ""
+		if !replayed {
+			suffix = " no-failing-input-found"
+		}
+		say(fmt.Sprintf("VIOLATION property=%s replay=%s%s", *prop, rp, suffix))
+		violations++
+	}
+	// ledger: every clause discharged on the pinned tree must still be generated
+	missing := 0
+	if !*updateLedger {
+		for _, k := range ledger.Keys[*prop] {
+			if !generated[k] {
+				skip := false
+				for _, s := range stale {
+					if strings.HasPrefix(k, s+"/") {
+						skip = true
+					}
+				}
+				for _, r := range results {
+					if r.Err != nil && strings.HasPrefix(k, r.Block.Name+"/") {
+						skip = true // already reported
+					}
+				}
+				if skip {
+					continue
+				}
+				missing++
+				if missing <= 5 {
+					rp := filepath.Join(replayDir, sanitize(*prop+"_missing_"+k)+".json")
+					writeJSON(rp, map[string]interface{}{"property": *prop, "clause": k,
+						"meaning": "a contract clause that was discharged on the pinned tree no longer produces any obligation (the code path it guards disappeared)"})
+					say(fmt.Sprintf("VIOLATION property=%s replay=%s no-failing-input-found (clause %s no longer generated)", *prop, rp, k))
+					violations++
+				}
+			}
+		}
+	}
+	if nObl == 0 && len(ledger.Keys[*prop]) > 0 {
+		say(fmt.Sprintf("VIOLATION property=%s replay=%s no-failing-input-found (no obligations generated)", *prop, filepath.Join(replayDir, *prop+"_empty.json")))
+		writeJSON(filepath.Join(replayDir, *prop+"_empty.json"), map[string]interface{}{"property": *prop})
+		violations++
+	}
+	for _, v := range vacuity {
+		if strings.Contains(v, "/cover.requires") {
+			fmt.Println("VACUITY-ERROR: contradictory precondition:", v)
+			return 2
+		}
+	}
+
+	// ---- bounded stand-in
+	var bounded map[string]interface{}
+	if !*noBounded {
+		bounded = runBounded(*prop, *tier, seed, *repo, findings, say, &violations, replayDir)
+	}
+
+	if *updateLedger {
+		var ks []string
+		for k := range generated {
+			ks = append(ks, k)
+		}
+		sort.Strings(ks)
+		ledger.Keys[*prop] = ks
+		os.MkdirAll(filepath.Join(VerifDir, "baseline"), 0o755)
+		writeJSON(filepath.Join(VerifDir, "baseline", "ledger.json"), ledger)
+	}
+
+	// ---- evidence
+	var assumptions []string
+	for n := range notes {
+		assumptions = append(assumptions, n)
+	}
+	sort.Strings(assumptions)
+	for _, t := range trusted {
+		assumptions = append(assumptions, "contract assumed, not verified (trusted): "+t)
+	}
+	assumptions = append(assumptions, GlobalAssumptions...)
+	sort.Strings(funcs)
+	cov := map[string]interface{}{
+		"obligations":              nObl,
+		"discharged":               nOK,
+		"checker_cmd":              fmt.Sprintf("/verif/bin/gvc check -property %s -tier %s", *prop, *tier),
+		"trusted_base":             TrustedBase,
+		"functions_under_contract": funcs,
+		"by_solver":                bySolver,
+		"solver_s":                 float64(solverMs) / 1000,
+		"samples":                  samples,
+		"vacuity": map[string]interface{}{"canaries_not_provable_as_required": canFail, "canaries_provable(dead paths)": len(vacuity),
+			"precondition_cover_queries": covers, "dead_paths": vacuity},
+		"stale_contracts": stale,
+		"ledger_clauses":  len(ledger.Keys[*prop]),
+		"explanation":     explain(*prop, nObl, nOK, bounded),
+	}
+	if bounded != nil {
+		cov["bounded"] = bounded
+		for _, k := range []string{"evaluations", "distinct_nontrivial", "rule", "exhaustive"} {
+			if v, ok := bounded[k]; ok {
+				cov[k] = v
+			}
+		}
+	}
+	level := levelOf(*prop)
+	if len(samples) == 0 {
+		samples = append(samples, "no deductive obligation for this property in this run")
+		cov["samples"] = samples
+	}
+	ev := &Evidence{PropertyID: *prop, Tier: *tier, Seed: seed, Level: level, Coverage: cov, Assumptions: assumptions,
+		WallS: time.Since(t0).Seconds(), Violations: violations}
+	writeEvidence(evPath, ev)
+	fmt.Printf("property %s: %d/%d obligations discharged over %d functions, %d violations, %.1fs\n", *prop, nOK, nObl, len(funcs), violations, time.Since(t0).Seconds())
+	if violations > 0 {
+		return 1
+	}
+	return 0
+}
+
+var TrustedBase = []string{"go/packages + go/ssa (golang.org/x/tools v0.29.0) as the reading of the source", "gvc VC generator (/verif/gvc)",
+	"z3 5.1.0 (z3-new)", "z3 4.8.12", "cvc5 1.0", "standard-library models of /verif/gvc/models.go"}
+
+var GlobalAssumptions = []string{
+	"int/int64 arithmetic is mathematical (no overflow obligation); sized unsigned types wrap",
+	"string contents are abstract (uninterpreted sort with length and rune count)",
+	"termination is not proved unless a decreases clause is given",
+	"types, values and ASTs are finite acyclic trees (the code documents that recursive types are unsupported)",
+}
+
+func levelOf(prop string) string {
+	b, err := os.ReadFile(filepath.Join(VerifDir, "levels.json"))
+	if err == nil {
+		m := map[string]string{}
+		if json.Unmarshal(b, &m) == nil {
+			if l, ok := m[prop]; ok {
+				return l
+			}
+		}
+	}
+	return "other"
+}
+
+func explain(prop string, n, ok int, bounded map[string]interface{}) string {
+	s := fmt.Sprintf("contract-based deductive verification: %d proof obligations generated from the go/ssa form of the current /repo sources for the functions under contract, %d discharged by SMT solvers (unbounded: all inputs, all loop iterations)", n, ok)
+	if bounded != nil {
+		s += "; plus a bounded stand-in (runtime checking of the same contracts over an enumerated input space, labelled bounded, not counted as proved)"
+	}
+	return s
+}
+
+func firstLine(s string) string {
+	if i := strings.IndexByte(s, '\n'); i >= 0 {
+		return s[:i]
+	}
+	return s
+}
+
+func sanitize(s string) string {
+	r := strings.NewReplacer("/", "_", "(", "", ")", "", "*", "", " ", "_", "#", "_", "@", "_", ":", "_", ">", "_", "$", "_")
+	s = r.Replace(s)
+	if len(s) > 150 {
+		s = s[:150]
+	}
+	return s
+}
+
+func writeJSON(path string, v interface{}) {
+	b, _ := json.MarshalIndent(v, "", " ")
+	os.WriteFile(path, b, 0o644)
+}
+
+func writeEvidence(path string, ev *Evidence) {
+	if ev.Coverage == nil {
+		ev.Coverage = map[string]interface{}{}
+	}
+	if ev.Assumptions == nil {
+		ev.Assumptions = []string{}
+	}
+	writeJSON(path, ev)
+}
+
+// GuardFunDir refuses to run if a file owned by /verif below /repo/fun
+// matches the regex that fun/gen.sh greps for.
+func (P *Program) GuardFunDir() error {
+	re := regexp.MustCompile(`[A-Z][A-Z_]+ = `)
+	for _, f := range []string{filepath.Join(P.RepoDir, "fun", "zz_contracts_verif.go"), filepath.Join(VerifDir, "contracts", "fun.go")} {
+		b, err := os.ReadFile(f)
+		if err != nil {
+			continue
+		}
+		if loc := re.FindIndex(b); loc != nil {
+			return fmt.Errorf("%s contains the pattern fun/gen.sh greps for near %q", f, string(b[loc[0]:loc[1]]))
+		}
+	}
+	return nil
+}
+
+// runBounded runs the bounded stand-in harness for the property, if any.
+func runBounded(prop, tier string, seed int, repo string, findings []Finding, say func(string), violations *int, replayDir string) map[string]interface{} {
+	dir := filepath.Join(VerifDir, "bounded")
+	if _, err := os.Stat(filepath.Join(dir, "props", prop)); err != nil {
+		return nil
+	}
+	out := filepath.Join(VerifDir, ".cache", "bounded_"+prop+".json")
+	os.MkdirAll(filepath.Dir(out), 0o755)
+	os.Remove(out)
+	cmd := exec.Command(filepath.Join(dir, "run.sh"), prop, tier, strconv.Itoa(seed), repo, out)
+	cmd.Dir = dir
+	b, err := cmd.CombinedOutput()
+	res := map[string]interface{}{}
+	jb, rerr := os.ReadFile(out)
+	if rerr != nil || json.Unmarshal(jb, &res) != nil {
+		rp := filepath.Join(replayDir, prop+"_bounded_error.json")
+		writeJSON(rp, map[string]interface{}{"property": prop, "error": fmt.Sprint(err), "output": trunc(string(b), 8000)})
+		say(fmt.Sprintf("VIOLATION property=%s replay=%s no-failing-input-found (bounded stand-in did not build or run: %v)", prop, rp, err))
+		*violations++
+		return map[string]interface{}{"error": fmt.Sprint(err)}
+	}
+	// failures reported by the harness
+	if fl, ok := res["failures"].([]interface{}); ok {
+		seen := map[string]bool{}
+		for i, f := range fl {
+			fm, _ := f.(map[string]interface{})
+			key, _ := fm["key"].(string)
+			if kf := matchFinding(findings, prop, "bounded:"+key); kf != nil {
+				if !seen[kf.ID] {
+					seen[kf.ID] = true
+					say(fmt.Sprintf("KNOWN-FINDING: property=%s %s: %s [bounded %s, witness %s]", prop, kf.ID, kf.What, key, kf.Witness))
+				}
+				continue
+			}
+			if seen["v:"+key] {
+				continue
+			}
+			seen["v:"+key] = true
+			rp := filepath.Join(replayDir, sanitize(fmt.Sprintf("%s_bounded_%s_%d", prop, key, i))+".json")
+			writeJSON(rp, fm)
+			say(fmt.Sprintf("VIOLATION property=%s replay=%s", prop, rp))
+			*violations++
+		}
+	}
+	delete(res, "failures")
+	return res
+}
